@@ -289,3 +289,243 @@ Proof.
     + right. left. eexists _, _. split; [reflexivity|]. split; [reflexivity|].
       destruct Hx as [Ex|Hx]; [left; rewrite Ex; reflexivity | right; exact (in_map (fun a0 => zlen (text_of a0)) _ _ Hx)].
 Qed.
+
+(* ================= 5. DFANputlabel / DFANputdesc ============================================================== *)
+Lemma hput_absent : forall tag ref data dds, hfind tag ref dds = None -> hput tag ref data dds = dds ++ [mkdd tag ref data].
+Proof.
+  induction dds as [|x t IH]; simpl; intros H; [reflexivity|]. unfold hfind in H. simpl in H.
+  destruct (dd_is tag ref x); [discriminate|]. rewrite IH by exact H. reflexivity.
+Qed.
+
+Lemma decode_encode : forall g r txt, u16 g -> u16 r -> decode_target (encode_target g r ++ txt) = (g, r) /\ skipn 4 (encode_target g r ++ txt) = txt.
+Proof.
+  intros g r txt Hg Hr. split; [|reflexivity]. unfold decode_target, encode_target. simpl. rewrite !codec16 by assumption. reflexivity.
+Qed.
+
+Lemma fill_slot_spec : forall e blk blk', fill_slot e blk = Some blk' ->
+  In e blk' /\ (forall x, In x blk -> de_annref x <> 0 -> In x blk') /\ (forall x, In x blk' -> x = e \/ In x blk).
+Proof.
+  induction blk as [|y t IH]; simpl; intros blk' H; [discriminate|].
+  destruct (de_annref y =? 0) eqn:E.
+  - inversion H; subst. apply Z.eqb_eq in E. split; [left; reflexivity|]. split.
+    + intros x [->|Hx] N; [contradiction | right; assumption].
+    + intros x [->|Hx]; [left; reflexivity | right; right; assumption].
+  - destruct (fill_slot e t) as [t'|] eqn:Ef; [|discriminate]. inversion H; subst. destruct (IH t' eq_refl) as [A [B C]].
+    split; [right; assumption|]. split.
+    + intros x [->|Hx] N; [left; reflexivity | right; apply B; assumption].
+    + intros x [->|Hx]; [right; left; reflexivity|]. destruct (C x Hx); [left; assumption | right; right; assumption].
+Qed.
+
+Lemma new_block_spec : forall e x, In x (new_block e) -> x = e \/ de_annref x = 0.
+Proof.
+  intros e x [->|H]; [left; reflexivity|]. right. apply repeat_spec in H. subst. reflexivity.
+Qed.
+
+Lemma add_to_last_spec : forall e blocks,
+  In e (concat (add_to_last e blocks)) /\
+  (forall x, In x (concat blocks) -> de_annref x <> 0 -> In x (concat (add_to_last e blocks))) /\
+  (forall x, In x (concat (add_to_last e blocks)) -> x = e \/ In x (concat blocks) \/ de_annref x = 0).
+Proof.
+  intros e. induction blocks as [|b rest IH].
+  - cbn [add_to_last concat]. rewrite app_nil_r. split; [left; reflexivity|]. split; [intros x []|]. intros x H. destruct (new_block_spec e x H); auto.
+  - destruct rest as [|b2 rest2].
+    + cbn [add_to_last concat]. destruct (fill_slot e b) as [b'|] eqn:Ef; cbn [concat]; rewrite ?app_nil_r.
+      * destruct (fill_slot_spec e b b' Ef) as [A [B C]]. split; [assumption|]. split; [assumption|]. intros x Hx. destruct (C x Hx); auto.
+      * split; [apply in_or_app; right; left; reflexivity|]. split; [intros x Hx _; apply in_or_app; left; assumption|].
+        intros x Hx. apply in_app_or in Hx. destruct Hx as [Hx|Hx]; [auto|]. destruct (new_block_spec e x Hx); auto.
+    + destruct IH as [A [B C]]. change (add_to_last e (b :: b2 :: rest2)) with (b :: add_to_last e (b2 :: rest2)).
+      change (concat (b :: add_to_last e (b2 :: rest2))) with (b ++ concat (add_to_last e (b2 :: rest2))).
+      change (concat (b :: b2 :: rest2)) with (b ++ concat (b2 :: rest2)).
+      split; [apply in_or_app; right; assumption|]. split.
+      * intros x Hx N. apply in_app_or in Hx. apply in_or_app. destruct Hx; [left; assumption | right; apply B; assumption].
+      * intros x Hx. apply in_app_or in Hx. destruct Hx as [Hx|Hx]; [right; left; apply in_or_app; left; assumption|].
+        destruct (C x Hx) as [X|[X|X]]; [auto | right; left; apply in_or_app; right; assumption | auto].
+Qed.
+
+Definition ref1 (mr : mres) : Z := match mr with MOk [r] _ => r | _ => 0 end.
+Definition fill_full (o : op) (mr : mres) : op :=
+  match o with
+  | ODfPut k g r t _ => ODfPut k g r t (ref1 mr)
+  | ODfAddF k t _ => ODfAddF k t (ref1 mr)
+  | _ => fill o mr
+  end.
+
+Lemma other_kind_tag : forall k k', kind_ok k -> kind_ok k' -> k' <> k -> dfan_tag k' <> dfan_tag k.
+Proof. intros k k' [-> | ->] [-> | ->] N; try contradiction; vm_compute; discriminate. Qed.
+
+Lemma putann_eval : forall s kind g r txt s1 found, g <> 0 -> r <> 0 -> zlen txt <> 0 ->
+  DFANIlocate s kind g r = (s1, found) ->
+  let tag := dfan_tag kind in
+  let annref := if found =? 0 then htagnewref tag (l_dds s1) else found in
+  DFANIputann s kind g r txt =
+    if annref =? 0 then (s1, false)
+    else if negb (found =? 0) && match hfind tag annref (l_dds s1) with None => true | Some _ => false end then (s1, false)
+    else let s2 := set_dds s1 (hput tag annref (encode_target g r ++ txt) (l_dds s1)) in
+         (set_lastref (if found =? 0 then DFANIaddentry s2 kind annref g r else s2) annref, true).
+Proof.
+  intros s kind g r txt s1 found Hg Hr Ht Hl. unfold DFANIputann.
+  rewrite (proj2 (Z.eqb_neq g 0) Hg), (proj2 (Z.eqb_neq r 0) Hr). cbn [orb]. rewrite Hl. cbv zeta.
+  destruct (_ =? 0); [reflexivity|]. destruct (_ && _); [reflexivity|].
+  rewrite (proj2 (Z.eqb_neq (zlen txt) 0) Ht). reflexivity.
+Qed.
+
+Lemma DirCoh_other : forall k blocks dds dds', DirCoh k blocks dds ->
+  (forall d, d_tag d = dfan_tag k -> (In d dds' <-> In d dds)) -> DirCoh k blocks dds'.
+Proof.
+  intros k blocks dds dds' [A B] H. split.
+  - intros e He N. destruct (A e He N) as [d [D1 [D2 D3]]]. exists d. split; [apply H; assumption | auto].
+  - intros d Hd Ht. apply (B d); [apply H; assumption | assumption].
+Qed.
+
+Lemma sim_dfput : forall h a kind g r txt x0 h' mr a' sr, SimD h a -> kind_ok kind -> u16 g -> u16 r ->
+  mstep h (ODfPut kind g r txt x0) = (h', mr) -> step a (ODfPut kind g r txt (ref1 mr)) = (a', sr) ->
+  sr = RUnspec \/ exhausted sr mr \/ (SimD h' a' /\ accepts_full sr mr).
+Proof.
+  intros h a kind g r txt x0 h' mr a' sr [HS HD] Hk Hg16 Hr16 HM HSp. unfold mstep in HM. cbv beta iota zeta in HM. simpl in HSp.
+  rewrite (sim_sess _ _ HS) in HSp. destruct (h_sess h) eqn:Es; [inversion HSp; left; reflexivity|]. specialize (HD eq_refl).
+  pose proof (sim_good _ _ HS) as HG. pose proof HG as [HI HT]. destruct (sim_closed _ _ HS Es) as [C1 C2].
+  destruct (kind_facts kind Hk) as [K1 [K2 [K3 [K4 [K5 K6]]]]]. set (t := dfan_kind_type kind) in *. set (tag := dfan_tag kind) in *.
+  destruct ((g =? 0) || (r =? 0)) eqn:Ez.
+  { unfold DFANIputann in HM. rewrite Ez in HM. inversion HM; inversion HSp; subst. right. right. split; [|left; exact I].
+    split; [destruct h; exact HS | intros _; exact HD]. }
+  apply orb_false_iff in Ez. destruct Ez as [Eg Er]. apply Z.eqb_neq in Eg. apply Z.eqb_neq in Er.
+  destruct ((zlen txt =? 0) || ((kind =? DFAN_LABEL) && has_nul txt)) eqn:Et; [inversion HSp; left; reflexivity|].
+  apply orb_false_iff in Et. destruct Et as [Et _]. apply Z.eqb_neq in Et.
+  destruct (DFANIlocate (h_lib h) kind g r) as [s1 found] eqn:El.
+  destruct (locate_spec _ _ _ _ _ _ Hk Eg HD (inv_refs _ HI) El) as [HD1 [Hdd [F [Hdiro [Hf1 [Hf0 [Hnone Hdirc]]]]]]].
+  rewrite (putann_eval _ _ _ _ _ _ _ Eg Er Et El) in HM. cbv zeta in HM. fold tag in HM. rewrite Hdd in HM.
+  destruct (decode_encode g r txt Hg16 Hr16) as [Hdec Hskip].
+  assert (Hrepr : forall x, In x (anns a) <-> In x (map ann_of (l_dds (h_lib h)))).
+  { intros x. rewrite (sim_repr _ _ HS). apply closed_repr_iff; assumption. }
+  destruct (Z.eq_dec found 0) as [E0|N0].
+  - (* the object has no annotation of this kind yet *)
+    subst found. rewrite Z.eqb_refl in HM. cbn [negb andb] in HM.
+    assert (Hnil : on_target t g r (anns a) = []).
+    { destruct (on_target t g r (anns a)) as [|x l] eqn:E; [reflexivity|]. exfalso.
+      assert (Hin : In x (x :: l)) by (left; reflexivity). rewrite <- E in Hin.
+      apply (on_target_closed h a kind g r HS Es Hk) in Hin. destruct Hin as [d [D1 [D2 [D3 _]]]]. apply (Hf0 eq_refl d D1 D2 D3). }
+    rewrite Hnil in HSp.
+    remember (htagnewref tag (l_dds (h_lib h))) as annref eqn:Ea.
+    destruct (annref =? 0) eqn:Ea0.
+    { apply Z.eqb_eq in Ea0. inversion HM; subst h' mr. simpl in HSp. unfold fresh in HSp. simpl in HSp. inversion HSp; subst.
+      right. left. split; reflexivity. }
+    apply Z.eqb_neq in Ea0. destruct (htagnewref_range _ _ _ (eq_sym Ea) Ea0) as [Hrange Hnotin].
+    assert (Hhf : hfind tag annref (l_dds (h_lib h)) = None) by (apply not_in_refs_hfind; assumption).
+    set (nd := mkdd tag annref (encode_target g r ++ txt)) in *.
+    set (s2 := set_dds s1 (hput tag annref (encode_target g r ++ txt) (l_dds (h_lib h)))) in *.
+    set (s3 := DFANIaddentry s2 kind annref g r) in *.
+    inversion HM; subst h' mr; clear HM. cbn [ref1 l_lastref set_lastref] in HSp.
+    assert (Hfr : fresh t annref (anns a) = true).
+    { unfold fresh. destruct Hrange as [R1 R2]. rewrite (proj2 (Z.leb_le _ _) R1), (proj2 (Z.leb_le _ _) R2). simpl.
+      destruct (lookup (t, annref) (anns a)) as [x|] eqn:L; [|reflexivity]. exfalso. apply lookup_In in L. destruct L as [L1 L2].
+      apply Hrepr in L1. apply in_map_iff in L1. destruct L1 as [d [E Hd]]. subst x. unfold ann_of in L2. simpl in L2. inversion L2.
+      destruct (tf_tags _ HT d Hd) as [ty [Ty Gy]]. rewrite Gy, ty_of_tag_of_type in H0 by assumption. subst ty.
+      apply Hnotin. rewrite <- H1. apply in_map. unfold of_tag. apply filter_In. split; [assumption | apply Z.eqb_eq; congruence]. }
+    rewrite Hfr in HSp. inversion HSp; subst a' sr; clear HSp.
+    assert (Hput : hput tag annref (encode_target g r ++ txt) (l_dds (h_lib h)) = l_dds (h_lib h) ++ [nd]) by (apply hput_absent; assumption).
+    assert (Hann : ann_of nd = mkann (t, annref) g r (Some txt)).
+    { rewrite (ann_of_dann kind nd Hk eq_refl). unfold dann, nd. cbn [d_data d_ref]. rewrite Hdec, Hskip. reflexivity. }
+    assert (Htr3 : forall ty, l_tree s3 ty = None) by (intros ty; destruct F as [F1 _]; unfold s3, s2, DFANIaddentry; cbn [l_dds l_tree l_atoms l_num l_next l_dir set_lastref set_dir set_dds]; rewrite F1; apply C1).
+    assert (HI3 : Inv (set_lastref s3 annref)).
+    { apply (Inv_same_tables (h_lib h)); [assumption | destruct F as [F1 [F2 [F3 F4]]]; repeat split; assumption|].
+      unfold s3, s2, DFANIaddentry; cbn [l_dds l_tree l_atoms l_num l_next l_dir set_lastref set_dir set_dds]. rewrite Hput. intros d Hd. apply in_app_or in Hd. destruct Hd as [Hd|[<-|[]]]; [apply (inv_refs _ HI); assumption | exact Hrange]. }
+    assert (HT3 : TF (set_lastref s3 annref)).
+    { apply (TF_hput_closed (h_lib h) _ tag annref (encode_target g r ++ txt)); auto. exists t. auto.
+      intros _. unfold zlen, encode_target. rewrite app_length. cbn [length]. lia. }
+    right. right. split; [|left; unfold accepts; split; [left; reflexivity | constructor]].
+    split.
+    + unfold add_ann. constructor; cbn [h_lib hlib h_sess h_slots anns slots sess].
+      * split; assumption.
+      * unfold keys. rewrite map_app. cbn [map a_key]. apply NoDup_app_one; [apply (sim_nodup _ _ HS)|]. apply lookup_None.
+        unfold fresh in Hfr. destruct (lookup (t, annref) (anns a)); [rewrite andb_false_r in Hfr; discriminate | reflexivity].
+      * intros x. rewrite in_app_iff. rewrite (closed_repr_iff (set_lastref s3 annref) x (conj HI3 HT3) Htr3). unfold s3, s2, DFANIaddentry; cbn [l_dds l_tree l_atoms l_num l_next l_dir set_lastref set_dir set_dds]. rewrite Hput, map_app, in_app_iff.
+        cbn [map In]. rewrite Hann, Hrepr. split; [intros [X|[X|[]]]; auto | intros [X|[X|[]]]; auto].
+      * first [apply (sim_sess _ _ HS) | symmetry; exact Es].
+      * intros _. split; [exact Htr3 | destruct F as [_ [_ [F3 _]]]; cbn [h_lib hlib]; unfold s3, s2, DFANIaddentry; cbn [l_dds l_tree l_atoms l_num l_next l_dir set_lastref set_dir set_dds]; rewrite F3; exact C2].
+      * intros slot. pose proof (sim_slots _ _ HS slot) as X. unfold ANid2tagref in *. cbn [h_lib hlib h_slots]. unfold s3, s2, DFANIaddentry; cbn [l_dds l_tree l_atoms l_num l_next l_dir set_lastref set_dir set_dds]. destruct F as [_ [_ [F3 _]]]. rewrite F3. exact X.
+    + intros _ k b Hkk Hb. unfold s3, s2, DFANIaddentry in Hb; cbn [h_lib hlib l_dds l_dir set_lastref set_dir set_dds] in Hb. unfold s3, s2, DFANIaddentry; cbn [h_lib hlib l_dds l_tree l_atoms l_num l_next l_dir set_lastref set_dir set_dds]. rewrite Hput.
+      destruct (Z.eq_dec k kind) as [->|N].
+      * rewrite upd_same in Hb. inversion Hb; subst b; clear Hb.
+        set (b0 := match l_dir s1 kind with Some b => b | None => [] end).
+        destruct (add_to_last_spec (mkdirent annref g r) b0) as [A1 [A2 A3]].
+        assert (Hc0 : DirCoh kind b0 (l_dds (h_lib h))).
+        { unfold b0. destruct (l_dir s1 kind) as [bb|] eqn:Eb; [rewrite <- Hdd; apply (HD1 kind bb Hk Eb)|].
+          split; [intros e []|]. intros d Hd Htg. exfalso. assert (X : of_tag (dfan_tag kind) (l_dds (h_lib h)) = []) by first [exact (Hnone eq_refl Eb) | exact (Hnone eq_refl eq_refl)].
+          assert (Hin0 : In d (of_tag (dfan_tag kind) (l_dds (h_lib h)))) by (unfold of_tag; apply filter_In; split; [assumption | apply Z.eqb_eq; assumption]).
+          rewrite X in Hin0. contradiction. }
+        destruct Hc0 as [Ca Cb]. split.
+        -- intros e He Nz. destruct (A3 e He) as [->|[X|X]]; [|destruct (Ca e X Nz) as [d [D1 D2]]; exists d; split; [apply in_or_app; left; assumption | assumption] | contradiction].
+           exists nd. split; [apply in_or_app; right; left; reflexivity|]. unfold nd. cbn [d_tag d_ref d_data de_annref de_tag de_ref]. split; [reflexivity|]. split; [reflexivity | exact Hdec].
+        -- intros d Hd Htg. apply in_app_or in Hd. destruct Hd as [Hd|[<-|[]]].
+           ++ destruct (Cb d Hd Htg) as [e [E1 [E2 E3]]]. exists e. split; [apply A2; [assumption|]|auto]. rewrite E2. pose proof (inv_refs _ HI d Hd). lia.
+           ++ exists (mkdirent annref g r). split; [assumption|]. cbn [d_tag d_ref d_data de_annref de_tag de_ref]. split; [reflexivity | symmetry; exact Hdec].
+      * rewrite upd_other in Hb by assumption. rewrite Hdiro in Hb by assumption.
+        apply (DirCoh_other k b (l_dds (h_lib h))); [apply (HD k b Hkk Hb)|].
+        intros d Htg. rewrite in_app_iff. split; [intros [X|[<-|[]]]; [assumption|]|auto].
+        exfalso. apply (other_kind_tag kind k Hk Hkk N). symmetry. exact Htg.
+  - (* the object has an annotation: it is replaced *)
+    destruct (Hf1 N0) as [d [D1 [D2 [D3 D4]]]].
+    assert (Hh : hfind tag found (l_dds (h_lib h)) = Some d) by (apply hfind_In; [apply (tf_nodup _ HT) | assumption | assumption | assumption]).
+    rewrite (proj2 (Z.eqb_neq found 0) N0) in HM. rewrite Hh in HM. cbn [negb andb] in HM. cbv beta iota in HM. rewrite ?(proj2 (Z.eqb_neq found 0) N0) in HM. cbv beta iota in HM.
+    set (nd := mkdd tag found (encode_target g r ++ txt)) in *.
+    set (s2 := set_dds s1 (hput tag found (encode_target g r ++ txt) (l_dds (h_lib h)))) in *.
+    inversion HM; subst h' mr; clear HM. cbn [ref1 l_lastref set_lastref] in HSp.
+    assert (Hx : In (dann kind d) (on_target t g r (anns a))) by (apply (on_target_closed h a kind g r HS Es Hk); exists d; auto).
+    destruct (on_target t g r (anns a)) as [|x1 l1] eqn:Eo; [contradiction|].
+    assert (Hex : (snd (a_key x1) =? found) || existsb (fun r0 => r0 =? found) (refs l1) = true).
+    { destruct Hx as [Ex|Hx']; apply orb_true_iff; [left; rewrite Ex; unfold dann; cbn [a_key snd]; apply Z.eqb_eq; assumption|right].
+      apply existsb_exists. exists found. split; [|apply Z.eqb_refl]. unfold refs. apply in_map_iff. exists (dann kind d).
+      split; [unfold dann; cbn [a_key snd]; assumption | exact Hx']. }
+    rewrite Hex in HSp. inversion HSp; subst a' sr; clear HSp.
+    assert (Hdd' : forall d0, In d0 (hput tag found (encode_target g r ++ txt) (l_dds (h_lib h))) <-> d0 = nd \/ (In d0 (l_dds (h_lib h)) /\ ddkey d0 <> (tag, found))).
+    { intros d0. apply hput_In. apply (tf_nodup _ HT). }
+    assert (Hann : ann_of nd = mkann (t, found) g r (Some txt)).
+    { rewrite (ann_of_dann kind nd Hk eq_refl). unfold dann, nd. cbn [d_data d_ref]. rewrite Hdec, Hskip. reflexivity. }
+    assert (Hannd : ann_of d = mkann (t, found) g r (Some (skipn 4 (d_data d)))).
+    { rewrite (ann_of_dann kind d Hk D2). unfold dann. rewrite D3, D4. reflexivity. }
+    assert (Htr2 : forall ty, l_tree s2 ty = None) by (intros ty; destruct F as [F1 _]; unfold s2; cbn [l_dds l_tree l_atoms l_num l_next l_dir set_lastref set_dir set_dds]; rewrite F1; apply C1).
+    assert (HI2 : Inv (set_lastref s2 found)).
+    { apply (Inv_same_tables (h_lib h)); [assumption | destruct F as [F1 [F2 [F3 F4]]]; repeat split; assumption|].
+      unfold s2; cbn [l_dds l_tree l_atoms l_num l_next l_dir set_lastref set_dir set_dds]. intros d0 Hd0. apply Hdd' in Hd0. destruct Hd0 as [->|[Hd0 _]]; [unfold nd; cbn [d_ref]; rewrite <- D3; apply (inv_refs _ HI d D1) | apply (inv_refs _ HI); assumption]. }
+    assert (HT2 : TF (set_lastref s2 found)).
+    { apply (TF_hput_closed (h_lib h) _ tag found (encode_target g r ++ txt)); auto. exists t. auto.
+      intros _. unfold zlen, encode_target. rewrite app_length. cbn [length]. lia. }
+    right. right. split; [|left; unfold accepts; split; [left; reflexivity | constructor]].
+    split.
+    + constructor; cbn [h_lib hlib h_sess h_slots anns slots sess].
+      * split; assumption.
+      * unfold keys. rewrite set_text_keys. apply (sim_nodup _ _ HS).
+      * intros x. rewrite (set_text_In _ _ _ _ (sim_nodup _ _ HS)). rewrite (closed_repr_iff (set_lastref s2 found) x (conj HI2 HT2) Htr2). unfold s2; cbn [l_dds l_tree l_atoms l_num l_next l_dir set_lastref set_dir set_dds].
+        rewrite in_map_iff. split.
+        -- intros [[y [Y1 [Y2 ->]]]|[X1 X2]].
+           ++ exists nd. split; [|apply Hdd'; left; reflexivity]. rewrite Hann.
+              apply Hrepr in Y1. apply in_map_iff in Y1. destruct Y1 as [d0 [E0 Hd0]]. subst y.
+              (* the annotation with key (t, found) is the one of d *)
+              assert (d0 = d).
+              { unfold ann_of in Y2. simpl in Y2. inversion Y2. destruct (tf_tags _ HT d0 Hd0) as [ty [Ty Gy]].
+                rewrite Gy, ty_of_tag_of_type in H0 by assumption. subst ty.
+                apply (NoDup_map_inj _ _ ddkey (l_dds (h_lib h))); [apply (tf_nodup _ HT) | assumption | assumption|]. unfold ddkey. rewrite Gy, H1, D2, D3. exact (f_equal (fun z => (z, found)) (eq_sym K2)). }
+              subst d0. rewrite Hannd. reflexivity.
+           ++ apply Hrepr in X1. apply in_map_iff in X1. destruct X1 as [d0 [E0 Hd0]]. exists d0. split; [assumption|]. apply Hdd'. right. split; [assumption|].
+              intros Kd. apply X2. subst x. unfold ddkey in Kd. inversion Kd. rewrite (ann_of_dann kind d0 Hk H0). reflexivity.
+        -- intros [d0 [E0 Hd0]]. apply Hdd' in Hd0. destruct Hd0 as [->|[Hd0 Kd]].
+           ++ left. exists (ann_of d). split; [apply Hrepr; apply in_map; assumption|]. rewrite Hannd. split; [reflexivity|]. rewrite <- E0, Hann. reflexivity.
+           ++ right. split; [apply Hrepr; rewrite <- E0; apply in_map; assumption|]. subst x. intros Kx. apply Kd.
+              unfold ann_of in Kx. simpl in Kx. inversion Kx. destruct (tf_tags _ HT d0 Hd0) as [ty [Ty Gy]].
+              rewrite Gy, ty_of_tag_of_type in H0 by assumption. subst ty. unfold ddkey. rewrite Gy, H1. exact (f_equal (fun z => (z, found)) (eq_sym K2)).
+      * first [apply (sim_sess _ _ HS) | symmetry; exact Es].
+      * intros _. split; [exact Htr2 | destruct F as [_ [_ [F3 _]]]; cbn [h_lib hlib]; unfold s2; cbn [l_dds l_tree l_atoms l_num l_next l_dir set_lastref set_dir set_dds]; rewrite F3; exact C2].
+      * intros slot. pose proof (sim_slots _ _ HS slot) as X. unfold ANid2tagref in *. cbn [h_lib hlib h_slots]. unfold s2; cbn [l_dds l_tree l_atoms l_num l_next l_dir set_lastref set_dir set_dds]. destruct F as [_ [_ [F3 _]]]. rewrite F3. exact X.
+    + intros _ k b Hkk Hb. unfold s2 in Hb; cbn [h_lib hlib l_dds l_dir set_lastref set_dir set_dds] in Hb. unfold s2; cbn [h_lib hlib l_dds l_tree l_atoms l_num l_next l_dir set_lastref set_dir set_dds].
+      pose proof (HD1 k b Hkk Hb) as [Ca Cb]. rewrite Hdd in Ca, Cb. split.
+      * intros e He Nz. destruct (Ca e He Nz) as [d0 [E1 [E2 [E3 E4]]]].
+        destruct (Z.eq_dec (d_ref d0) found) as [Ef|Nf]; [destruct (Z.eq_dec k kind) as [->|Nk]|].
+        -- assert (d0 = d) by (apply (NoDup_map_inj _ _ ddkey (l_dds (h_lib h))); [apply (tf_nodup _ HT) | assumption | assumption | unfold ddkey; congruence]).
+           subst d0. exists nd. split; [apply Hdd'; left; reflexivity|]. unfold nd; cbn [d_tag d_ref d_data]. split; [reflexivity|]. split; [congruence|]. rewrite Hdec. rewrite <- E4. symmetry. exact D4.
+        -- exists d0. split; [apply Hdd'; right; split; [assumption|]|auto]. unfold ddkey. intros X. inversion X as [[X1 X2]]. apply (other_kind_tag kind k Hk Hkk Nk). rewrite <- E2. exact X1.
+        -- exists d0. split; [apply Hdd'; right; split; [assumption|]|auto]. unfold ddkey. intros X. inversion X. contradiction.
+      * intros d0 Hd0 Htg. apply Hdd' in Hd0. destruct Hd0 as [->|[Hd0 Kd]].
+        -- unfold nd in Htg; cbn [d_tag] in Htg. assert (k = kind). { destruct (Z.eq_dec k kind); [assumption|]. exfalso. apply (other_kind_tag kind k Hk Hkk n). symmetry. exact Htg. }
+           subst k. destruct (Cb d D1 D2) as [e [E1 [E2 E3]]]. exists e. split; [assumption|]. unfold nd; cbn [d_tag d_ref d_data]. split; [congruence|]. rewrite Hdec. rewrite E3. exact D4.
+        -- apply (Cb d0 Hd0 Htg).
+Qed.
